@@ -30,6 +30,13 @@ Theorem C15_push_forms_sound : forall h d r, push_form h (N.of_nat (length d)) -
 Proof. exact push_form_tokenize. Qed.
 Print Assumptions C15_push_forms_sound.
 
+(* a token list is a complete reading of the script: every data token is a full push (one of the four
+   header forms followed by exactly the declared number of bytes) -- a push running past the end of the
+   script is never read as a shorter datum *)
+Theorem C15_tokens_are_full_pushes : forall s toks, tokenize s = TokOk toks -> tok_weight_ok toks s.
+Proof. exact tokenize_complete. Qed.
+Print Assumptions C15_tokens_are_full_pushes.
+
 (* ---- generate then parse, under the GLOBAL template order ---- *)
 
 (* every OutputScript template, all values (each pushed datum below 2^32 bytes): the generated script
@@ -278,3 +285,9 @@ Example C15_ex_view :
   /\ tx_view (fun _ => true) [bs [118; 169; 1; 99; 136; 172]; bs [106; 2; 80; 1]]
   = [Some (Some JPurchase, 4, true); Some (Some JData, 0, true)].
 Proof. exact ex_view. Qed.
+(* truncated pushes are rejected, like partial length fields (the lenient reading 6a056162 -> return_data 'ab' is gone) *)
+Example C15_ex_truncated :
+  (tokenize (bs [106; 5; 97; 98]), tokenize (bs [106; 76]), tokenize (bs [106; 77; 5; 0; 171]),
+   classify (bs [106; 5; 97; 98]), parse_input (bs [2; 97; 98; 5; 97]), classify (bs [0; 20; 170; 170]))
+  = (TokErr StructError, TokErr StructError, TokErr StructError, CNoMatch, SNoMatch, CNoMatch).
+Proof. vm_compute. reflexivity. Qed.
